@@ -6,7 +6,9 @@ oracle (`judge`) looks every surviving criterion / alternative up BY LABEL in th
 compares the label order with what the selections asked for (computed on plain Python lists — no
 pandas); the CORRESPONDENCE compares every link with the Lean model (`Skc/Model/Data.lean`).
 A second stream passes every objective alias (and case variants, and non-aliases) to
-`Objective.from_alias`."""
+`Objective.from_alias`.  Cases with a `side` list are order-dependent HISTORIES: at a given position of the chain the same
+matrix object is first copied with replacement members (copy(**kwargs) / to_dict() written to by the caller) and then
+derived from again (branches + the rest of the chain): nothing a replacement copy was given may leak back."""
 from __future__ import annotations
 
 import itertools
@@ -34,6 +36,16 @@ RULE = (
     "the row being a criterion's namesake three times out of four, alone / after other links / followed by copy, round "
     "trips and further links; a stream of matrices with zero-weight criteria next to others (or only such) where a "
     "selection keeps ONLY zero-weight criteria and is followed by copy() / to_dict()+mkdm (once or twice) and more links. "
+    "A fixed stream of ORDER-DEPENDENT HISTORIES on ONE matrix object (half on the source, half on a matrix derived by 1-2 "
+    "selections; sometimes after a warm-up copy() / to_dict()): first 1-3 copies with replacement members -- the documented "
+    "dm.copy(weights= / objectives= / matrix= / alternatives= / criteria= / dtypes=...), 1-3 members at once, or the same by "
+    "hand on the dict handed out by to_dict() (entries replaced, or its arrays overwritten in place) then mkdm(**d); every "
+    "replaced member differs from the object's own and is often a permutation of it -- THEN 1-3 branches derived from the "
+    "SAME object (always a plain copy() or to_dict()/mkdm first, also twice or followed by a selection; further selection "
+    "chains) and the rest of the chain (mostly copy / round trip, then more links); one case in four repeats this on the "
+    "matrix the chain ends with. Oracle: each replacement copy carries the replacement for the replaced members and the "
+    "object's own for all others, the object itself is unchanged, every later derivation is judged by label against the "
+    "source like any other link; each branch is also replayed by the model (chain up to the object + branch). "
     "Thorough adds ALL chains of length <= 2 over a fixed selector alphabet on a 3x3 matrix. Alias stream: every alias of "
     "the code, upper/lower/title variants of the string ones, and non-aliases. Non-trivial: the chain changes the order or "
     "the set of criteria or alternatives at least once (or an alias case); distinct by case hash."
@@ -640,6 +652,113 @@ def zero_weight_cases(rng, n):
     return out
 
 
+# ------------------------------------------------------------------------------------------ order-dependent histories
+# ONE matrix object (the source or a matrix derived by selection) is first copied WITH REPLACEMENT MEMBERS -- the
+# documented dm.copy(weights=...), copy(objectives=...), copy(matrix=...), copy(alternatives=...), ... or the same by hand
+# on the dict that to_dict() hands out -- and THEN derived from again (plain copy(), mkdm(**to_dict()), selections, the
+# rest of the chain).  What is derived later must still carry the object's OWN members.
+
+REPLACEABLE = ["weights", "objectives", "matrix", "alternatives", "criteria", "dtypes"]
+INPLACE = ["weights", "objectives", "matrix"]  # arrays of to_dict() that can be overwritten element by element
+
+
+def _rot(xs):
+    return list(xs[1:]) + list(xs[:1])
+
+
+def _replacement(rng, dm, a, c, via):
+    """replacement members for a copy of the matrix with alternatives `a` and criteria `c` (labels of `dm`): each replaced
+    member DIFFERS from the object's own (so a leak is visible), often a permutation of the own values (a leak then
+    looks like a criterion carrying another criterion's weight / an alternative another one's row)"""
+    ai = {x: i for i, x in enumerate(dm["alternatives"])}
+    ci = {x: j for j, x in enumerate(dm["criteria"])}
+    own_w = [dm["weights"][ci[x]] for x in c]
+    own_o = [doc_sense(dm["objectives"][ci[x]]) for x in c]
+    dts = [dm["dtypes"][ci[x]] for x in c]
+    own_m = [[dm["matrix"][ai[x]][ci[y]] for y in c] for x in a]
+    pool = [k for k in (INPLACE if via == "inplace" else REPLACEABLE) if k != "dtypes" or "int" in dts]
+    members = rng.sample(pool, min(len(pool), rng.choice([1, 1, 1, 2, 2, 3])))
+    repl = {}
+    for k in members:
+        if k == "weights":
+            cands = [_rot(own_w), list(reversed(own_w)), [w * 2 for w in own_w], G.weights(rng, len(c), "dyadic"), [0.0] * len(c)]
+            rng.shuffle(cands)
+            repl[k] = next((w for w in cands if w != own_w), [w + 1.0 for w in own_w])
+        elif k == "objectives":
+            flip = set(rng.sample(range(len(c)), rng.randint(1, len(c))))
+            new = [({"max": "min", "min": "max"}[o] if j in flip else o) for j, o in enumerate(own_o)]
+            repl[k] = [random_alias(rng, 1 if o == "max" else -1) for o in new]
+        elif k == "matrix":
+            r = rng.random()
+            if r < 0.3 and len(a) > 1:
+                new = _rot(own_m)  # the rows, one place further
+            elif r < 0.5:
+                new = [[(x + 1 if t == "int" else x * 2 + 1.0) for x, t in zip(row, dts)] for row in own_m]
+            else:
+                new = [[(rng.randint(-50, 50) if t == "int" else float(G.value(rng, "dyadic", positive=False))) for t in dts] for _ in a]
+            new = [list(row) for row in new]
+            if new == own_m:
+                new[0][0] = new[0][0] + 1
+            repl[k] = new
+        elif k in ("alternatives", "criteria"):
+            own, lp = (a, G.LABEL_POOL_ALT) if k == "alternatives" else (c, G.LABEL_POOL_CRIT)
+            cands = [_rot(own), list(reversed(own)), G.labels(rng, lp, len(own)), [f"r{i}" for i in range(len(own))]]
+            if rng.random() < 0.5:
+                rng.shuffle(cands)
+            repl[k] = next(x for x in cands + [[f"r{i}" for i in range(len(own))]] if x != list(own))
+        else:  # dtypes: every column float64 (int64 -> float64 is exact below 2^53; the reverse would truncate)
+            repl[k] = ["float"] * len(c)
+    return repl
+
+
+def _event(rng, dm, at, a, c):
+    """what happens to the matrix after `at` links (alternatives a, criteria c): copies with replacement members, then
+    branches (short chains) derived from the SAME object; the first branch starts with a plain copy() / dict round trip"""
+    via = rng.choice(["copy"] * 6 + ["dict"] * 2 + ["inplace"] * 2)
+    copies = [_replacement(rng, dm, a, c, via) for _ in range(rng.choice([1, 1, 1, 2, 2, 3]))]
+    here = {"alternatives": a, "criteria": c}
+    first = [{"kind": rng.choice(["copy", "roundtrip"])}]
+    r = rng.random()
+    if r < 0.25:
+        first.append({"kind": rng.choice(["copy", "roundtrip"])})
+    elif r < 0.5:
+        first += gen_chain(rng, here, 1)
+    then = [first]
+    for _ in range(rng.choice([0, 1, 1, 2])):
+        b = gen_chain(rng, here, rng.randint(1, 2))
+        if _walk(a, c, b)[0] and rng.random() < 0.5:
+            b.append({"kind": rng.choice(["copy", "roundtrip"])})
+        then.append(b)
+    return {"at": at, "via": via, "warm": rng.choice([None, None, None, "copy", "to_dict"]), "copies": copies, "then": then}
+
+
+def history_cases(rng, n):
+    """ORDER-DEPENDENT histories on one object: every second case on the source matrix, the others on a matrix derived by
+    1-2 selections; after the event the chain itself goes on from the same object (mostly with copy() / a round trip);
+    one case in four has a second event on the matrix the chain ends with"""
+    out = []
+    for i in range(n):
+        dm = dm_case(rng, shared_labels=rng.choice(["some", "all"]) if rng.random() < 0.125 else False)
+        alts, crits = list(dm["alternatives"]), list(dm["criteria"])
+        pre, a, c = ([], alts, crits) if i % 2 == 0 else _prefix(rng, dm, p=1.0)
+        side = [_event(rng, dm, len(pre), a, c)]
+        here = {"alternatives": a, "criteria": c}
+        r = rng.random()
+        tail = []
+        if r < 0.7:
+            tail = [{"kind": rng.choice(["copy", "roundtrip"])}]
+            if rng.random() < 0.4:
+                tail += gen_chain(rng, here, rng.randint(1, 2))
+        elif r < 0.85:
+            tail = gen_chain(rng, here, rng.randint(1, 2))
+        chain = pre + tail
+        ok, a2, c2 = _walk(alts, crits, chain)
+        if tail and ok and a2 and c2 and rng.random() < 0.25:
+            side.append(_event(rng, dm, len(chain), a2, c2))
+        out.append({"kind": "chain", "dm": dm, "chain": chain, "side": side})
+    return out
+
+
 def gen(ctx):
     rng = ctx.rng
     cases = alias_cases()
@@ -650,6 +769,7 @@ def gen(ctx):
     cases += colseries_cases(rng, ctx.n(60, 400))
     cases += row_cases(rng, ctx.n(150, 1000))
     cases += zero_weight_cases(rng, ctx.n(150, 1000))
+    cases += history_cases(rng, ctx.n(300, 2500))  # a fixed share of every run, not a branch of the random stream
     if ctx.thorough:
         cases += exhaustive_cases()
     return cases
@@ -661,6 +781,7 @@ def search_gen(ctx):
     for _ in range(3000):
         dm = dm_case(rng, m=rng.randint(1, 4), n=rng.randint(1, 4), shared_labels=rng.choice(["some", "all"]) if rng.random() < 0.2 else False)
         cases.append({"kind": "chain", "dm": dm, "chain": gen_chain(rng, dm, rng.randint(1, 2))})
+    cases += history_cases(rng, 600)
     return cases
 
 
@@ -768,6 +889,65 @@ def snapshot(dm):
     return o
 
 
+def side_copy(dm, repl, via):
+    """a copy of `dm` with the members of `repl` replaced: the documented dm.copy(**kwargs) (via="copy"), the same by hand
+    on the dict that to_dict() hands out -- entries replaced (via="dict") or overwritten in place (via="inplace")"""
+    import skcriteria as skc
+
+    kw = {}
+    for k, v in repl.items():
+        if k == "objectives":
+            kw[k] = [py_alias(x) for x in v]
+        elif k == "dtypes":
+            kw[k] = [NP_DT[t] for t in v]
+        elif k == "matrix":
+            kw[k] = [list(row) for row in v]
+        else:
+            kw[k] = list(v)
+    if via == "copy":
+        return dm.copy(**kw)
+    d = dm.to_dict()
+    if via == "dict":
+        d.update(kw)
+        return skc.mkdm(**d)
+    for k, v in repl.items():
+        d[k][...] = np.asarray([(1 if doc_sense(x) == "max" else -1) for x in v] if k == "objectives" else v)
+    return skc.mkdm(**d)
+
+
+def _run_links(dm, steps):
+    out = []
+    for step in steps:
+        try:
+            dm = apply_step(dm, step)
+        except Exception as e:
+            out.append({"err": G.err_name(e), "msg": str(e)[:160]})
+            break
+        out.append({"dm": snapshot(dm)})
+    return out
+
+
+def run_event(dm, ev):
+    """on ONE object: (warm-up,) the copies with replacement members, the object itself again, then every branch"""
+    eo = {"copies": [], "then": []}
+    keep = []
+    if ev.get("warm") == "copy":
+        keep.append(dm.copy())
+    elif ev.get("warm") == "to_dict":
+        keep.append(dm.to_dict())
+    for repl in ev["copies"]:
+        try:
+            keep.append(side_copy(dm, repl, ev["via"]))
+        except Exception as e:
+            eo["copies"].append({"err": G.err_name(e), "msg": str(e)[:160]})
+            continue
+        eo["copies"].append({"dm": snapshot(keep[-1])})
+    eo["self"] = snapshot(dm)
+    for branch in ev["then"]:
+        eo["then"].append(_run_links(dm, branch))
+    return eo
+
+
 def observe(case):
     import warnings
 
@@ -782,13 +962,24 @@ def observe(case):
         return {"sense": "max" if r is Objective.MAX else "min" if r is Objective.MIN else repr(r)}
     dm = build_dm(case["dm"])
     obs = {"init": snapshot(dm), "steps": []}
-    for step in case["chain"]:
+    side = case.get("side", [])
+    if side:
+        obs["side"] = [{"skipped": True} for _ in side]
+
+    def events(at, dm):
+        for i, ev in enumerate(side):
+            if ev["at"] == at:
+                obs["side"][i] = run_event(dm, ev)
+
+    events(0, dm)
+    for n, step in enumerate(case["chain"]):
         try:
             dm = apply_step(dm, step)
         except Exception as e:
             obs["steps"].append({"err": G.err_name(e), "msg": str(e)[:160]})
             break
         obs["steps"].append({"dm": snapshot(dm)})
+        events(n + 1, dm)
     return obs
 
 
@@ -809,7 +1000,12 @@ def model_dm(d):
 def requests(case, obs):
     if case["kind"] == "alias":
         return [{"op": "alias", "key": case["key"]}]
-    return [{"op": "sel", "dm": model_dm(case["dm"]), "chain": case["chain"], "version": case.get("version", "fixed")}]
+    reqs = [{"op": "sel", "dm": model_dm(case["dm"]), "chain": case["chain"], "version": case.get("version", "fixed")}]
+    for ev in case.get("side", []):
+        # a branch derived from the object after `at` links is, for the model, the chain up to there followed by the branch
+        for branch in ev["then"]:
+            reqs.append({"op": "sel", "dm": model_dm(case["dm"]), "chain": case["chain"][:ev["at"]] + branch, "version": case.get("version", "fixed")})
+    return reqs
 
 
 # ------------------------------------------------------------------------------------------ judge
@@ -935,60 +1131,133 @@ def judge(case, obs, replies):
         prop(f"freshly built matrix: derived view disagrees with the six parts ({dmis})")
         return out
 
-    alts, crits = list(src["alternatives"]), list(src["criteria"])
-    stopped = False
-    for n, (step, o) in enumerate(zip(case["chain"], obs["steps"])):
+    reached = {0: init}
+    reached.update(judge_links(src, init, case["chain"], obs["steps"], prop))
+
+    # order-dependent histories: copies with replacement members of ONE object, then further derivations of that object
+    for ev, eo in zip(case.get("side", []), obs.get("side", [])):
+        at = ev["at"]
+        if eo.get("skipped") or at not in reached:
+            continue
+        cur = reached[at]  # judged above: every member is the source's own, looked up by label
+        tag = f"history on the {'source' if at == 0 else 'matrix after link %d' % (at - 1)} (replacement copies via {ev['via']})"
+        for r, (repl, so) in enumerate(zip(ev["copies"], eo["copies"])):
+            what = f"{tag}: copy #{r} replacing {sorted(repl)}"
+            if "err" in so:
+                prop(f"{what} was refused with {so['err']}: {so.get('msg')}", None, so["err"])
+                continue
+            want = expected_copy(cur, repl)
+            k = _same_six(so["dm"], want)
+            if k:
+                prop(f"{what}: {k} are neither the replacement given nor the object's own", want[k], so["dm"][k])
+                continue
+            dmis = derived_mismatch(so["dm"])
+            if dmis:
+                prop(f"{what}: derived view disagrees with the six parts ({dmis})", None, so["dm"].get("derived"))
+        k = _same_six(eo["self"], cur)
+        if k:
+            prop(f"{tag}: the object itself no longer carries its own {k} after the copies", cur[k], eo["self"][k])
+            continue
+        dmis = derived_mismatch(eo["self"])
+        if dmis:
+            prop(f"{tag}: the object's derived view disagrees with its six parts after the copies ({dmis})", None, eo["self"].get("derived"))
+            continue
+        for b, (branch, bo) in enumerate(zip(ev["then"], eo["then"])):
+            judge_links(src, cur, branch, bo, prop, f"{tag}, then branch {b} ")
+
+    # correspondence: every link, model vs implementation
+    corr_links(replies[0].get("steps", []), obs["steps"], case["chain"], corr)
+    ri = 1
+    for ev, eo in zip(case.get("side", []), obs.get("side", [])):
+        at = ev["at"]
+        for b, branch in enumerate(ev["then"]):
+            rep = replies[ri] if ri < len(replies) else None
+            ri += 1
+            if rep is None or eo.get("skipped"):
+                continue
+            ms = rep.get("steps", [])
+            if len(ms) < at or any("err" in m for m in ms[:at]):
+                continue  # the model does not get there: the main chain above says so
+            corr_links(ms[at:], eo["then"][b], branch, corr, f"history at {at}, branch {b} ")
+    return out
+
+
+def expected_copy(cur, repl):
+    """six parts of a copy of the matrix `cur` (a snapshot) with the members of `repl` replaced: the replaced members are
+    the replacement (documentation of copy(**kwargs)), every other member is the object's own (the property)"""
+    want = {k: cur[k] for k in SIX}
+    for k, v in repl.items():
+        if k == "weights":
+            want["wts"] = C.rats(v)
+        elif k == "objectives":
+            want["objs"] = [doc_sense(x) for x in v]
+        elif k == "matrix":
+            want["cells"] = [[C.rat(x) for x in row] for row in v]
+        elif k == "alternatives":
+            want["alts"] = list(v)
+        elif k == "criteria":
+            want["crits"] = list(v)
+        elif k == "dtypes":
+            want["dts"] = list(v)
+        else:
+            raise KeyError(k)
+    return want
+
+
+def judge_links(src, start, steps, osteps, prop, prefix=""):
+    """the PROPERTY oracle over consecutive links applied to the matrix with snapshot `start` (a matrix whose members are
+    the source's own); returns {k: snapshot after k links} for the links that were judged and found in order"""
+    alts, crits = list(start["alts"]), list(start["crits"])
+    reached = {}
+    for n, (step, o) in enumerate(zip(steps, osteps)):
         st, form, ra, rc = requested(alts, crits, step)
-        where = f"link {n} {step}"
+        where = f"{prefix}link {n} {step}"
         if "err" in o:
             if st == "ok" and form != "scalar" and not has_dup(ra, rc):
                 prop(f"{where}: a valid selection was refused with {o['err']}: {o.get('msg')}", {"alts": ra, "crits": rc}, o["err"])
-            stopped = True
             break
         s = o["dm"]
         ident = None
         if st == "ok" and has_dup(ra, rc):
-            break  # a label named twice is not a subset: outside the property (the correspondence below still judges it)
+            break  # a label named twice is not a subset: outside the property (the correspondence still judges it)
         mis = by_label_mismatch(s, src)
         if mis:
             prop(f"{where}: {mis[0]}", mis[1], mis[2], ident)
-            stopped = True
             break
         if st == "ok" and form != "scalar":
             if s["crits"] != rc:
                 prop(f"{where}: criteria are not in the requested order", rc, s["crits"], ident)
-                stopped = True
                 break
             if s["alts"] != ra:
                 prop(f"{where}: alternatives are not in the requested order", ra, s["alts"], ident)
-                stopped = True
                 break
         dmis = derived_mismatch(s)
         if dmis:
             prop(f"{where}: derived view disagrees with the six parts ({dmis})", None, s.get("derived"), ident)
-            stopped = True
             break
         alts, crits = s["alts"], s["crits"]
+        reached[n + 1] = s
+    return reached
 
-    # correspondence: every link, model vs implementation
-    msteps = replies[0].get("steps", [])
-    if len(msteps) != len(obs["steps"]):
-        corr("number of executed links differs (one side refused earlier)", [("err:" + m["err"]) if "err" in m else "dm" for m in msteps],
-             [("err:" + m["err"]) if "err" in m else "dm" for m in obs["steps"]])
-        return out
-    for n, (m, o) in enumerate(zip(msteps, obs["steps"])):
+
+def corr_links(msteps, osteps, steps, corr, prefix=""):
+    """CORRESPONDENCE: the same links, model vs implementation"""
+    if len(msteps) != len(osteps):
+        corr(f"{prefix}number of executed links differs (one side refused earlier)", [("err:" + m["err"]) if "err" in m else "dm" for m in msteps],
+             [("err:" + m["err"]) if "err" in m else "dm" for m in osteps])
+        return
+    for n, (m, o) in enumerate(zip(msteps, osteps)):
         if ("err" in m) != ("err" in o):
-            corr(f"link {n} {case['chain'][n]}: one side refuses", m.get("err", "dm"), o.get("err", "dm"))
+            corr(f"{prefix}link {n} {steps[n]}: one side refuses", m.get("err", "dm"), o.get("err", "dm"))
             break
         if "err" in m:
             if m["err"] != o["err"]:
-                corr(f"link {n} {case['chain'][n]}: refused with another exception class", m["err"], o["err"])
+                corr(f"{prefix}link {n} {steps[n]}: refused with another exception class", m["err"], o["err"])
             break
         k = _same_six(m["dm"], o["dm"])
         if k:
-            corr(f"link {n} {case['chain'][n]}: model and implementation differ on {k}", m["dm"][k], o["dm"][k])
+            corr(f"{prefix}link {n} {steps[n]}: model and implementation differ on {k}", m["dm"][k], o["dm"][k])
             break
-    return out
 
 
 def nontrivial(case, obs):
@@ -998,7 +1267,8 @@ def nontrivial(case, obs):
     for o in obs["steps"]:
         if "dm" in o and (o["dm"]["alts"] != src["alternatives"] or o["dm"]["crits"] != src["criteria"]):
             return True
-    return False
+    # a history: a copy that really differs from the object was made before the object was derived from again
+    return any(not eo.get("skipped") and eo.get("copies") and eo.get("then") for eo in obs.get("side", []))
 
 
 def tags(case, obs):
@@ -1007,6 +1277,16 @@ def tags(case, obs):
     t = ["chain", "len=%d" % len(case["chain"]), "shape=%dx%d" % (len(case["dm"]["alternatives"]), len(case["dm"]["criteria"]))]
     if case.get("ex"):
         t.append("exhaustive-3x3")
+    for ev, eo in zip(case.get("side", []), obs.get("side", [])):
+        if eo.get("skipped"):
+            t.append("history:not-reached")
+            continue
+        t += ["history", "history:" + ("on-source" if ev["at"] == 0 else "on-derived"), "history:via=" + ev["via"],
+              "history:copies=%d" % len(ev["copies"]), "history:branches=%d" % len(ev["then"])]
+        if ev.get("warm"):
+            t.append("history:warm=" + ev["warm"])
+        t += sorted({"history:replaces=" + k for repl in ev["copies"] for k in repl})
+        t += sorted({"history:then=" + b[0]["kind"] for b in ev["then"] if b})
     alts, crits = list(case["dm"]["alternatives"]), list(case["dm"]["criteria"])
     for step, o in zip(case["chain"], obs["steps"]):
         st, form, a, c = requested(alts, crits, step)
